@@ -700,7 +700,8 @@ func (c *Client) onPUBACK() error {
 		return errPacketIDSpace
 	case expect != packetID:
 		return fmt.Errorf("%w: PUBACK %#04x while %#04x next in line", errProtoReset, packetID, expect)
-	case len(c.atLeastOnce.queue) == 0:
+	case len(c.atLeastOnce.queue) == 0,
+		!c.atLeastOnce.submitted(c.orderedTxs.Acked):
 		return fmt.Errorf("%w: PUBACK precedes PUBLISH", errProtoReset)
 	}
 
@@ -731,7 +732,8 @@ func (c *Client) onPUBREC() error {
 		return errPacketIDSpace
 	case packetID != expect:
 		return fmt.Errorf("%w: PUBREC %#04x while %#04x next in line", errProtoReset, packetID, expect)
-	case int(c.Received-c.Completed) >= len(c.exactlyOnce.queue):
+	case int(c.Received-c.Completed) >= len(c.exactlyOnce.queue),
+		!c.exactlyOnce.submitted(c.orderedTxs.Received):
 		return fmt.Errorf("%w: PUBREC precedes PUBLISH", errProtoReset)
 	}
 
